@@ -277,7 +277,10 @@ def judge_total(module, recs, **kw):
     passes, wall = 1, first["wall"]
     while len(found) < first["rejected_n"]:
         rest = [r for r in recs if r["id"] not in found]
-        j = judge(module, rest, **kw)
+        # enough JVMs that the 60-per-JVM cap is unlikely to bind again
+        kw2 = dict(kw)
+        kw2["shards"] = max(1, min(400, len(rest), (first["rejected_n"] - len(found)) // 30 + 1))
+        j = judge(module, rest, **kw2)
         new = dict((int(cid), clause) for cid, clause in j["rejected"])
         if not new or j["rejected_n"] != first["rejected_n"] - len(found):
             raise TLCError("judge %s: inconsistent verdicts between passes (%d identified, %d + %d rejected)" % (module, len(found), j["rejected_n"], len(found)))
